@@ -33,6 +33,13 @@ def arr(rng, nn, ne, base):
     return [[vals[i * ne + j] / 2.0 for j in range(ne)] for i in range(nn)]
 
 
+def arr_int(rng, nn, ne, base):
+    """Integer-typed variable (counts, cell ids, nanosecond time stamps): Python ints, handed over as int64; values beyond 2**53 have no float64 image."""
+    vals = list(range(base, base + 3 * nn * ne, 3))
+    rng.shuffle(vals)
+    return [[vals[i * ne + j] for j in range(ne)] for i in range(nn)]
+
+
 def mesh(e, n):
     return [list(e) for _ in n], [[y] * len(e) for y in n]
 
@@ -84,17 +91,24 @@ def generate(rng, tier):
         extras = [arr(rng, nn, ne, 1000 + 100 * k) for k in range(nex)]
         exnames = [f"x{k}" for k in range(nex)] if nex else None
         dims = rng.choice([("northing", "easting"), ("lat", "lon"), ("y", "x")])
+        itag = ""
+        if rng.random() < 0.2:
+            base = rng.choice([0, -50, 2**53 + 1, 1_700_000_000_000_000_001])
+            data[rng.randrange(nvar)] = arr_int(rng, nn, ne, base)
+            if nex and rng.random() < 0.5:
+                extras[rng.randrange(nex)] = arr_int(rng, nn, ne, base + 7)
+            itag = "-intvar"
         u = rng.random()
         if u < 0.3:
             two_d = rng.random() < 0.5
             cs.append(mk_make(E if two_d else e, N if two_d else no, extras, data, names, dims, exnames, rng.random() < 0.6,
-                              "make-2d" if two_d else "make-1d"))
+                              ("make-2d" if two_d else "make-1d") + itag))
         elif u < 0.55:
             form = rng.choice(["dataset", "dataset", "named", "unnamed"])
             vs = list(zip(names, data))
             if form != "dataset":
                 vs = [("scalars" if form == "unnamed" else names[0], data[0])]
-            cs.append(mk_table(dims, e, no, list(zip(exnames or [], extras)), vs, form, rng.choice(["en", "ne"]), "table-" + form))
+            cs.append(mk_table(dims, e, no, list(zip(exnames or [], extras)), vs, form, rng.choice(["en", "ne"]), "table-" + form + itag))
         elif u < 0.7:
             cs.append({"fn": "to1d", "kind": "to1d", "args": [E, N, extras],
                        "op": f"to1d {C.enc(E)} {C.enc(N)} {C.enc(extras)}"})
@@ -146,11 +160,18 @@ def _ds_out(ds, dims):
 
 
 def _table_out(t):
-    return [[str(c), [float(v) for v in t[c].values]] for c in t.columns]
+    return [[str(c), [int(v) if np.issubdtype(t[c].values.dtype, np.integer) else float(v) for v in t[c].values]] for c in t.columns]
 
 
 def _A(x, role, case):
     """The nested list `x` as the array handed to verde/xarray, in a memory layout chosen per role (C, Fortran-ordered, strided)."""
+    flat = C.flat(x)
+    if flat and all(isinstance(v, int) and not isinstance(v, bool) for v in flat):
+        a = np.array(x, dtype=np.int64)
+        if len(role + case["op"][-70:]) % 2 and a.ndim == 2:
+            a = np.asfortranarray(a)
+        a.setflags(write=False)
+        return a
     a = np.array(x, dtype=float)
     return C.mkarr(a, list(a.shape), role + case["op"][-70:])
 
